@@ -1256,6 +1256,55 @@ macro_rules! tw6 {
         }
     };
 }
+/// Towers WITHOUT a square-root algorithm (Fp6 as a cubic over Fp2, Fp12 over it) still expose `legendre`
+/// (generic, through the norm down the tower): every element of the toy Fp6_3over2 and a structured
+/// sub-universe of the toy Fp12 against Euler's criterion x^((q-1)/2), evaluated with the field's own
+/// square-and-multiply `pow` (multiplication in the towers is property C02's subject).
+fn legendre_vs_euler<F: Field>(ctx: &mut Ctx, name: &str, p: u64, deg: usize, all: bool) {
+    let q = (p as u128).pow(deg as u32);
+    let e = ((q - 1) / 2) as u64;
+    let alpha: Vec<u64> = if all { (0..p).collect() } else { vec![0, 1, p - 1] };
+    let na = alpha.len() as u64;
+    let total = na.pow(deg as u32);
+    ctx.sweep(&format!("legendre_no_sqrt_tower/{name}"), total, |i, loc| {
+        let d = unrank_vec(i, &vec![na; deg]);
+        let x = F::from_base_prime_field_elems(d.iter().map(|k| F::BasePrimeField::from(alpha[*k as usize]))).unwrap();
+        let euler = x.pow([e]);
+        let want: i8 = if x.is_zero() {
+            0
+        } else if euler.is_one() {
+            1
+        } else {
+            -1
+        };
+        if !x.is_zero() && !euler.is_one() {
+            loc.check_at("euler_is_pm1", (euler + F::one()).is_zero(), || format!("{name}: x^((q-1)/2) is neither 1 nor -1 for x = {x}"));
+        }
+        loc.class(if want == 1 { "residue" } else if want == -1 { "nonresidue" } else { "zero" });
+        loc.class("legendre:tower_without_sqrt");
+        // element of a proper subfield embedded at the bottom (higher coordinates zero)
+        loc.class_if(d[1..].iter().all(|k| alpha[*k as usize] == 0), "legendre:base_prime_field_element_in_tower");
+        let l = x.legendre();
+        loc.check_at("legendre", sym_code(&l) == want, || format!("{name}: legendre({x}) = {l:?}, want {} = x^((q-1)/2)", sym_name(want)));
+        if loc.sampling() {
+            loc.sample(format!("{name}: legendre({x})"));
+        }
+    });
+}
+macro_rules! tw6c {
+    ($C:ty, $name:expr, $p:expr, $ctx:expr) => {
+        if $p <= 7 || $ctx.thorough() {
+            legendre_vs_euler::<ark_ff::Fp6<$C>>($ctx, $name, $p, 6, true);
+        } else {
+            legendre_vs_euler::<ark_ff::Fp6<$C>>($ctx, $name, $p, 6, false);
+        }
+    };
+}
+macro_rules! tw12 {
+    ($C:ty, $name:expr, $p:expr, $ctx:expr) => {
+        legendre_vs_euler::<ark_ff::Fp12<$C>>($ctx, $name, $p, 12, false);
+    };
+}
 macro_rules! swc {
     ($P:ty, $name:expr, $ctx:expr) => {
         toy_sw_recover::<$P>($ctx, $name);
@@ -1273,7 +1322,7 @@ fn prime_ext<F: PrimeField>() -> BigExt {
 
 fn main() {
     let mut ctx = Ctx::from_args("C11");
-    ctx.require(&[
+    ctx.require(&["legendre:tower_without_sqrt", "legendre:base_prime_field_element_in_tower", 
         "zero",
         "residue",
         "nonresidue",
@@ -1332,6 +1381,8 @@ fn main() {
     toy_fp4_run::<F4P29Cfg>(&mut ctx, "F4P29");
     // Fp6 = Fp3[v]/(v^2 - u) (fp6_2over3: quadratic template over a Tonelli-Shanks cubic base); 13^6 elements: thorough only
     algebra_mc::toy_fp6_2over3_towers!(tw6, &mut ctx);
+    algebra_mc::toy_fp6_3over2_towers!(tw6c, &mut ctx);
+    algebra_mc::toy_fp12_towers!(tw12, &mut ctx);
 
     // E: coordinate recovery
     algebra_mc::toy_sw_curves!(swc, &mut ctx);
